@@ -199,7 +199,24 @@ def parse(text):
             c.pop("_kv", None)
     if not blocks:
         return {"nblocks": 0, "block": "", "cats": []}
-    return {"nblocks": len(blocks), "block": blocks[0]["block"], "cats": blocks[0]["cats"]}
+    # the categories of later data blocks follow under the name "<block>::<category>": to the property they
+    # are simply other categories of the file (the functions edit the first block only)
+    cats = list(blocks[0]["cats"])
+    for b in blocks[1:]:
+        cats += [dict(c, name=b["block"] + "::" + c["name"]) for c in b["cats"]]
+    return {"nblocks": len(blocks), "block": blocks[0]["block"], "cats": cats}
+
+
+def whole(doc):
+    """The document as the spec sees it: first block's categories + those of doc["extra"] blocks (prefixed)."""
+    cats = list(doc["cats"])
+    for b in doc.get("extra", []):
+        cats += [dict(c, name=b["block"] + "::" + c["name"]) for c in b["cats"]]
+    return {"nblocks": 1 + len(doc.get("extra", [])), "block": doc["block"], "cats": cats}
+
+
+def emit_all(doc, style=0):
+    return emit(doc, style) + "".join(emit(b, style) for b in doc.get("extra", []))
 
 
 def textrep(t):
@@ -244,8 +261,10 @@ def domain_check(cases, cfg, scratch):
     return True
 
 
-CAT_POOL = ["atom_site", "entity", "struct_asym", "cell", "pdbx_x", "chem_comp"]
-ATTR_POOL = ["id", "label_asym_id", "auth_asym_id", "type", "name", "value", "details", "x", "seq_id"]
+CAT_POOL = ["atom_site", "entity", "struct_asym", "cell", "pdbx_x", "chem_comp", "pdbx_PDB_X"]
+# mmCIF data names are written in mixed case in real files (pdbx_PDB_ins_code, Cartn_x, B_iso_or_equiv)
+ATTR_POOL = ["id", "label_asym_id", "auth_asym_id", "type", "name", "value", "details", "x", "seq_id",
+             "pdbx_PDB_ins_code", "Cartn_x", "B_iso_or_equiv", "group_PDB"]
 VALUE_POOL = ["A", "B", "C", "AA", "a", "b", "A-2", "B-2", "1", "2", "10", "1.50", "0010", "-3.25", "x y", "two  spaces",
               "it's", "O5'", 'N"1', "it's a \"q\" w", "say 'hi' now", "line1\nline2", "; not a block", "_underscore",
               "data_like", "loop_", "#hash", "a#b", "$dollar", "[bracket]", "?", ".", "?x", "..", "N/A",
@@ -268,6 +287,17 @@ def random_cases(count, seed):
             rows = [[rng.choice(pal) for _ in attrs] for _ in range(nrows)]
             cats.append({"name": name, "attrs": attrs, "rows": rows})
         doc = {"block": rng.choice(["r1", "4GQJ", "x_y"]), "nblocks": 1, "cats": cats}
+        if rng.random() < 0.25:
+            # further data blocks (e.g. a ligand dictionary after the model); a later block may even carry a
+            # category of the same name as the one being edited - it is not the first block's category
+            doc["extra"] = []
+            for bname in rng.sample(["comp_LIG", "second", "r2"], rng.randint(1, 2)):
+                ecats = []
+                for name in rng.sample(CAT_POOL, rng.randint(1, 2)):
+                    attrs = rng.sample(ATTR_POOL, rng.randint(1, 3))
+                    ecats.append({"name": name, "attrs": attrs,
+                                  "rows": [[rng.choice(VALUE_POOL) for _ in attrs] for _ in range(rng.choice([1, 2, 3]))]})
+                doc["extra"].append({"block": bname, "cats": ecats})
         tgt = rng.choice(cats)
         cat = tgt["name"] if rng.random() < 0.9 else rng.choice([c for c in CAT_POOL + ["nope"] if c not in
                                                                  [x["name"] for x in cats]])
@@ -436,10 +466,10 @@ def record(case):
         if not ok:
             raise lib.MachineryError(f"harness tokenizer cannot read corpus file {case['file']}")
     else:
-        doc = case["in"]
-        text = emit(doc, case.get("style", 0))
+        text = emit_all(case["in"], case.get("style", 0))
+        doc = whole(case["in"])
         back = parse(text)
-        if back != {"nblocks": 1, "block": doc["block"], "cats": doc["cats"]}:
+        if back != doc:
             raise lib.MachineryError(f"emitter/tokenizer self-check failed for case {case['id']}")
     librec, _ = call_lib(text, op)
     clirec, pathrep = call_cli(text, op, _workdir(), case["id"].replace("/", "_"))
@@ -450,10 +480,14 @@ def record(case):
         base["style"] = case.get("style", 0)
     libcase = dict(base, id=case["id"] + "-lib", kind="lib", intext=textrep(text), lib=librec)
     libcase["in"] = doc
+    if case["src"] != "corpus" and case["in"].get("extra"):
+        libcase["raw"] = case["in"]          # the generator's document (several data blocks), for replay
     clicase = dict(base, id=case["id"] + "-cli", kind="cli", path=pathrep,
                    lib={"err": librec["err"], "text": librec["text"]}, cli=clirec)
     if case["src"] != "corpus":
         clicase["in"] = doc      # kept for replay only (not read by the CLI clauses)
+        if case["in"].get("extra"):
+            clicase["raw"] = case["in"]
     # the same invocation with the output path equal to the input path (editing a file where it is)
     clirec2, pathrep2 = call_cli(text, op, _workdir(), case["id"].replace("/", "_") + "-ip", inplace=True)
     ipcase = dict(clicase, id=case["id"] + "-cli-inplace", path=pathrep2, cli=clirec2, inplace=True)
